@@ -128,13 +128,11 @@ Qed.
 Lemma nobody_any : forall K s s', frame nobody s s' -> frame K s s'.
 Proof. intros K s s' F. eapply frame_weaken; [|exact F]. intros j []. Qed.
 
-Lemma co_resume_frame : forall k vals s r s', co_resume k vals s = (r, s') -> frame (eq k) s s'.
+Lemma co_resume_frame : forall k vals s r s', Inv s -> co_resume k vals s = (r, s') -> frame (eq k) s s'.
 Proof.
-  intros k vals s r s' H. unfold co_resume in H.
-  destruct (match vals with [] => (COk, s) | _ :: _ => co_push k vals s end) as [r1 s1] eqn:P.
+  intros k vals s r s' I H.
+  destruct (co_resume_cases _ _ _ _ _ I H) as [(-> & s1 & P & R)|(_ & ->)]; [|apply frame_refl].
   assert (F1 : frame (eq k) s s1) by (destruct vals; [inversion P; apply frame_refl|eapply co_push_frame; eauto]).
-  destruct r1; try (inversion H; subst; exact F1).
-  destruct (mco_resume k s1) as [e s2] eqn:R. inversion H; subst.
   eapply frame_trans; [exact F1|apply nobody_any; eapply mco_resume_frame; eauto].
 Qed.
 
@@ -215,7 +213,7 @@ Proof.
   destruct o; cbn [addressed].
   - destruct (get k (cos s)); simpl; [apply frame_refl|].
     eapply frame_weaken; [|apply frame_put]. intros j ->. reflexivity.
-  - destruct (co_resume k vals s) as [r s1] eqn:R. pose proof (co_resume_frame _ _ _ _ _ R) as F1.
+  - destruct (co_resume k vals s) as [r s1] eqn:R. pose proof (co_resume_frame _ _ _ _ _ I R) as F1.
     assert (F1' : frame (fun j => j = k) s s1) by (eapply frame_weaken; [|exact F1]; intros j ->; reflexivity).
     destruct r; simpl; try exact F1'.
     destruct (arrive k s1) as [s2 ls] eqn:A. simpl. eapply frame_trans; [exact F1'|].
